@@ -66,6 +66,15 @@ pub struct Outcome {
     pub skipped: Option<String>,
     /// number of individual oracle comparisons made in this case
     pub checks: u64,
+    /// optional distinctness key (e.g. hash of programs + *effective* schedule); default = case hash
+    #[serde(default)]
+    pub key: Option<u64>,
+    /// a case that runs many sub-executions (bounded-exhaustive schedule enumeration) reports
+    /// how many, and the distinctness keys of the non-trivial ones
+    #[serde(default)]
+    pub extra_evals: u64,
+    #[serde(default)]
+    pub extra_keys: Vec<u64>,
 }
 
 /// A generation plan: one cell (implementation variant x configuration) of a property.
@@ -202,12 +211,15 @@ pub struct Ctx {
     pub tier: Tier,
     /// scratch directory private to this worker (cleaned per case by users of it)
     pub scratch: std::path::PathBuf,
+    /// 'A' = release semantics, 'B' = overflow checks + debug assertions + AddressSanitizer
+    pub flavour: char,
     max_disc: usize,
 }
 
 impl Ctx {
     pub fn new(cell: String, tier: Tier, scratch: std::path::PathBuf) -> Ctx {
-        Ctx { cell, out: Outcome::default(), tier, scratch, max_disc: 12 }
+        let flavour = std::env::var("VERIF_FLAVOUR").ok().and_then(|s| s.chars().next()).unwrap_or('A');
+        Ctx { cell, out: Outcome::default(), tier, scratch, flavour, max_disc: 12 }
     }
     pub fn label(&mut self, l: impl Into<String>) {
         let l = l.into();
